@@ -82,7 +82,8 @@ class _Canonical(ast.NodeTransformer):
         -> `while not c: REST` followed by the raise / return;
     (j) `cast(T, e)` -> `e` (typing.cast is the identity at run time);
     (k) `obj.a = X if c else Y` with a call in an arm -> `if c: obj.a = X  else: obj.a = Y`;
-    (l) `if a: if b: X` -> `if a and b: X`."""
+    (l) `if a: if b: X` -> `if a and b: X`;
+    (m) `if a: r = X elif b: r = Y else: ...` followed by `return r` -> every arm returns what it assigned."""
 
     _OPS = (ast.Add, ast.Sub, ast.Mult, ast.BitOr, ast.BitAnd, ast.FloorDiv)
 
@@ -198,14 +199,32 @@ class _Canonical(ast.NodeTransformer):
         self.generic_visit(n)
         n.test = self._nnf(n.test, True)
         # (i) `while True: if c: raise E ...` -> `while not c: ...` then `raise E`
-        if (isinstance(n.test, ast.Constant) and n.test.value is True and not n.orelse and n.body and isinstance(n.body[0], ast.If)
-                and not n.body[0].orelse and len(n.body[0].body) == 1 and isinstance(n.body[0].body[0], (ast.Raise, ast.Return))
-                and not self._breaks(n.body)):
-            g = n.body[0]
-            self.rewrites += 1
-            n.test = self._nnf(ast.copy_location(ast.UnaryOp(op=ast.Not(), operand=g.test), g.test), True)
-            n.body = n.body[1:] or [ast.copy_location(ast.Pass(), g)]
-            return [n, g.body[0]]
+        if isinstance(n.test, ast.Constant) and n.test.value is True and not n.orelse and n.body and not self._breaks(n.body):
+            # ... the guard may be preceded by locals that name call-free reads (`offset = self.offset`): the test is written
+            # with what they name, the bindings stay at the top of the body
+            lead: List[ast.stmt] = []
+            env: Dict[str, ast.expr] = {}
+            k = 0
+            while (k < len(n.body) and k < 3 and isinstance(n.body[k], ast.Assign) and len(n.body[k].targets) == 1 and isinstance(n.body[k].targets[0], ast.Name)
+                   and not any(isinstance(x, (ast.Call, ast.Await, ast.NamedExpr, ast.Yield, ast.YieldFrom, ast.Lambda, ast.ListComp, ast.SetComp, ast.DictComp, ast.GeneratorExp)) for x in ast.walk(n.body[k].value))):
+                env[n.body[k].targets[0].id] = n.body[k].value
+                lead.append(n.body[k])
+                k += 1
+            if (k < len(n.body) and isinstance(n.body[k], ast.If) and not n.body[k].orelse and len(n.body[k].body) == 1
+                    and isinstance(n.body[k].body[0], (ast.Raise, ast.Return))
+                    and not any(isinstance(x, ast.Name) and x.id in env for x in ast.walk(n.body[k].body[0]))):
+                g = n.body[k]
+                import copy as _copy
+
+                class _S(ast.NodeTransformer):
+                    def visit_Name(self, nm: ast.Name) -> Any:
+                        return _copy.deepcopy(env[nm.id]) if isinstance(nm.ctx, ast.Load) and nm.id in env else nm
+
+                self.rewrites += 1
+                test = _S().visit(_copy.deepcopy(g.test)) if env else g.test
+                n.test = self._nnf(ast.copy_location(ast.UnaryOp(op=ast.Not(), operand=test), g.test), True)
+                n.body = lead + n.body[k + 1:] or [ast.copy_location(ast.Pass(), g)]
+                return [n, g.body[0]]
         return n
 
     def visit_IfExp(self, n: ast.IfExp) -> Any:
@@ -235,6 +254,52 @@ class _Canonical(ast.NodeTransformer):
                 self.rewrites += 1
                 return ast.copy_location(ast.Assign(targets=[a.targets[0]], value=ast.copy_location(ast.IfExp(test=n.test, body=a.value, orelse=b.value), n)), n)  # type: ignore[attr-defined]
         return n
+
+    @staticmethod
+    def _chain_has_else(st: ast.If) -> bool:
+        while True:
+            if not st.orelse:
+                return False
+            if len(st.orelse) == 1 and isinstance(st.orelse[0], ast.If):
+                st = st.orelse[0]
+                continue
+            return True
+
+    @staticmethod
+    def _arms_to_returns(st: ast.If, r: str, ret: ast.Return) -> bool:
+        """Rewrite in place when every arm of the chain is straight-line and at least one ends in `r = X`."""
+        arms: List[List[ast.stmt]] = []
+        cur = st
+        while True:
+            arms.append(cur.body)
+            if len(cur.orelse) == 1 and isinstance(cur.orelse[0], ast.If):
+                cur = cur.orelse[0]
+                continue
+            if cur.orelse:
+                arms.append(cur.orelse)
+            break
+
+        def ends_assign(a: List[ast.stmt]) -> bool:
+            return bool(a) and isinstance(a[-1], ast.Assign) and len(a[-1].targets) == 1 and isinstance(a[-1].targets[0], ast.Name) and a[-1].targets[0].id == r
+
+        if not any(ends_assign(a) for a in arms):
+            return False
+        for a in arms:
+            if a and isinstance(a[-1], (ast.Return, ast.Raise, ast.Continue, ast.Break)):
+                return False
+            # `r` may not be read or rebound in the arm before its last statement, nor the arm contain a nested jump
+            for b in a[:-1] if ends_assign(a) else a:
+                for x in ast.walk(b):
+                    if isinstance(x, ast.Name) and x.id == r:
+                        return False
+        import copy as _copy
+
+        for a in arms:
+            if ends_assign(a):
+                a[-1] = ast.copy_location(ast.Return(value=a[-1].value), a[-1])
+            else:
+                a.append(ast.copy_location(ast.Return(value=_copy.deepcopy(ret.value)), ret))
+        return True
 
     def _split_tuples(self, body: List[ast.stmt]) -> List[ast.stmt]:
         """(e) `a, b = x, y` (plain names on the left, as many expressions on the right, no later expression reading an
@@ -275,6 +340,14 @@ class _Canonical(ast.NodeTransformer):
                             and isinstance(nx.value, ast.Name) and nx.value.id == st.targets[0].id and self._uses):
                         self.rewrites += 1
                         out.append(ast.copy_location(ast.Return(value=st.value), st))
+                        i += 2
+                        continue
+                    # (m) `if a: r = X elif b: r = Y else: ...` followed by `return r` -> each arm returns what it assigned
+                    if isinstance(st, ast.If) and isinstance(nx, ast.Return) and isinstance(nx.value, ast.Name) and self._arms_to_returns(st, nx.value.id, nx):
+                        self.rewrites += 1
+                        out.append(st)
+                        if not self._chain_has_else(st):
+                            out.append(nx)
                         i += 2
                         continue
                     # (h) `if c: return X` + final `raise` -> `if not c: raise` + `return X`
